@@ -320,6 +320,7 @@ class BaseModel(SolverMixin, ModelInterface):
             if _verif.ON:
                 _verif.emit('before_done', self, chk=_verif.vec(get_check_values()))
 
+        iteration = 0  # No iterations at all if `max_iter` is zero
         for iteration in range(1, max_iter + 1):
             previous_values = current_values.copy()
 
